@@ -490,6 +490,10 @@ def execute(case, stats):
                         on_switch=on_switch, **kw)
 
     saved = None
+    sched.install_coop_locks()
+    if flavour == 'eval' and not all(hasattr(yaql, n) for n in (
+            '_cached_engine', '_cached_expressions', '_default_context')):
+        flavour = 'parse'       # the caches are an implementation detail
     if flavour == 'eval':
         saved = (yaql._cached_engine, yaql._cached_expressions,
                  yaql._default_context, X.Statement.evaluate)
